@@ -425,15 +425,14 @@ def scribble(obj):
     """overwrite a RESULT the library handed out, the way a caller may (a caller owns what it was given): lists and numpy arrays in place,
     dicts and sets emptied; immutable results are left alone. Returns True if something was overwritten. A later answer of the library must
     not show the scribbling."""
-    try:
-        import numpy as np
-        if isinstance(obj, np.ndarray):
+    if type(obj).__module__ == 'numpy' and hasattr(obj, 'fill') and hasattr(obj, 'flags'):
+        try:
             if obj.flags.writeable and obj.size:
-                obj[...] = (np.arange(obj.size).reshape(obj.shape) + 100).astype(obj.dtype)
+                obj.fill(77)
                 return True
-            return False
-    except Exception:  # noqa
-        pass
+        except Exception:  # noqa
+            pass
+        return False
     try:
         if isinstance(obj, list):
             if obj:
